@@ -69,7 +69,7 @@ def finish(pid, tier, seed, parts, wall_s, level_text, trusted_base, checker_cmd
             u = {"unit": k.get("kernel") or k.get("harness"), "engine": R.get("engine"), "variant": k.get("variant"),
                  "status": k.get("status")}
             st = k.get("stats") or {}
-            for key in ("mir_lines", "blocks", "stmts", "divmods", "bitblasts", "nonlinear", "defs", "opaque_calls", "inlined",
+            for key in ("mir_lines", "blocks", "stmts", "divmods", "bitblasts", "nonlinear", "defs", "opaque_calls", "inlined_calls", "inlined",
                         "unwind", "cbmc_properties", "secs", "vcc", "stubs"):
                 if key in st:
                     u[key] = st[key]
@@ -86,6 +86,9 @@ def finish(pid, tier, seed, parts, wall_s, level_text, trusted_base, checker_cmd
             u["queries"] = len(qs)
             by = {}
             for q in qs:
+                if q.get("expect") == "either":
+                    by["known_finding_probe_" + str(q.get("result"))] = by.get("known_finding_probe_" + str(q.get("result")), 0) + 1
+                    continue
                 if q.get("expect") == "sat":
                     key = "witness_sat" if q.get("result") == "sat" else "witness_missing"
                 else:
@@ -111,6 +114,16 @@ def finish(pid, tier, seed, parts, wall_s, level_text, trusted_base, checker_cmd
             new_viol.append(v)
     lines = []
     seen = set()
+    kmap = {kf["id"]: kf for kf in known if kf.get("status") == "known"}
+    for R in parts:
+        for h in R.get("known_hits", []):
+            kf = kmap.get(h["finding"])
+            if kf is None:
+                # a spec names a finding that the committed file does not list as known: report it
+                new_viol.append({"kernel": h["kernel"], "query": "violation inside role of %s, which is not listed as known" % h["finding"], "replay": h["replay"]})
+            elif kf["id"] not in seen:
+                seen.add(kf["id"])
+                lines.append("KNOWN-FINDING: property=%s %s [witness %s]" % (pid, kf["summary"], h["replay"].get("inputs")))
     for kf, v in known_hits:
         if kf["id"] in seen:
             continue
